@@ -3,6 +3,7 @@ package main
 import (
 	"fmt"
 	"go/token"
+	"go/types"
 	"strings"
 
 	"golang.org/x/tools/go/ssa"
@@ -17,6 +18,10 @@ func init() {
 
 func runC08(c *Ctx) {
 	w := c.W
+	checkMutateKeysNotAliased(c)
+	// the logical times keys are dated with: clocks persisted, merged identities taken over by the cache
+	checkMemClock(c)
+	checkCacheMergeFold(c, "R2.6")
 	c.Doc("R8.1", "no path from the 'keys in force' edge to the success return of readOperationPack avoids a CheckDetachedSignature call whose error is returned; the check is conditional on nothing but len(keys) > 0")
 	c.Doc("R8.2", "keys come from author.ValidKeysAtTime(<edit clock>, <time parsed from this commit's edit-clock tree entry>), author = the pack's resolved author; the keyring holds PGPEntity() of exactly those keys; data/signature are commit.SignedData / commit.Signature")
 	c.Doc("R8.3", "a nil SignedData or Signature is refused with an error before CheckDetachedSignature")
@@ -493,4 +498,109 @@ func checkSigningWrite(c *Ctx) {
 		c.Check(okSD, "R8.5", "GoGitRepo.ReadCommit:signed-data", w.FnPos(rc), "SignedData = commit re-encoded without signature", "SignedData is not the commit encoded without its signature")
 		c.Check(okSig, "R8.5", "GoGitRepo.ReadCommit:signature", w.FnPos(rc), "Signature = de-armored PGPSignature", "Signature is not the de-armored PGPSignature")
 	}
+}
+
+// R8.6: a key rotation is recorded. Identity.Mutate decides "nothing changed" by comparing the
+// mutator it handed to the callback with a reference copy; for that to see an in-place
+// replacement of a key the two must not share the key slice.
+func checkMutateKeysNotAliased(c *Ctx) {
+	w := c.W
+	c.Doc("R8.6", "in Identity.Mutate the Mutator handed to the callback and the reference it is compared with (reflect.DeepEqual) have separate copies of every slice field: after the struct copy, a freshly produced slice (a call result that is not the reference's) is stored into the callback's copy before the callback runs; a changed mutator appends a version built from the callback's copy")
+	fn := w.Method("entities/identity", "Identity", "Mutate")
+	if fn == nil {
+		c.Undecided("R8.6", "anchor:Identity.Mutate", "entities/identity", "not found")
+		return
+	}
+	c.seeFn(funcName(fn))
+	pos := w.FnPos(fn)
+	var de *ssa.Call
+	for _, cl := range CallsNamed(fn, "reflect.DeepEqual") {
+		de, _ = cl.Instr.(*ssa.Call)
+	}
+	if de == nil {
+		c.Undecided("R8.6", "Identity.Mutate:compares-with-reference", pos, "no reflect.DeepEqual comparison found: the change detection has another shape")
+		return
+	}
+	allocOf := func(v ssa.Value) *ssa.Alloc {
+		if mi, ok := v.(*ssa.MakeInterface); ok {
+			v = mi.X
+		}
+		if ld, ok := v.(*ssa.UnOp); ok {
+			if al, ok := ld.X.(*ssa.Alloc); ok {
+				return al
+			}
+		}
+		return nil
+	}
+	a, b := allocOf(de.Common().Args[0]), allocOf(de.Common().Args[1])
+	// which one goes to the callback?
+	var cb *ssa.Call
+	for _, cl := range Calls(fn) {
+		if _, isParam := cl.Instr.Common().Value.(*ssa.Parameter); isParam {
+			cb, _ = cl.Instr.(*ssa.Call)
+		}
+	}
+	if a == nil || b == nil || cb == nil || len(cb.Common().Args) != 1 {
+		c.Undecided("R8.6", "Identity.Mutate:compares-with-reference", pos, "operands of the comparison / callback not recognised")
+		return
+	}
+	mut, ref := b, a
+	if cb.Common().Args[0] == ssa.Value(a) {
+		mut, ref = a, b
+	} else if cb.Common().Args[0] != ssa.Value(b) {
+		c.Violate("R8.6", "Identity.Mutate:compares-with-reference", pos, "the value handed to the callback is not one of the two values compared")
+		return
+	}
+	st, isStruct := mut.Type().(*types.Pointer).Elem().Underlying().(*types.Struct)
+	if !isStruct {
+		return
+	}
+	storedTo := func(al *ssa.Alloc, field string) []*ssa.Store {
+		var out []*ssa.Store
+		for _, r := range *al.Referrers() {
+			if fa, ok := r.(*ssa.FieldAddr); ok && fieldName(fa) == field {
+				for _, r2 := range *fa.Referrers() {
+					if s, ok := r2.(*ssa.Store); ok && s.Addr == ssa.Value(fa) {
+						out = append(out, s)
+					}
+				}
+			}
+		}
+		return out
+	}
+	for i := 0; i < st.NumFields(); i++ {
+		f := st.Field(i)
+		switch f.Type().Underlying().(type) {
+		case *types.Slice, *types.Map, *types.Pointer:
+		default:
+			continue
+		}
+		c.Sites++
+		ok, why := false, "the callback's copy of "+f.Name()+" is the reference's own slice (struct copy only): replacing an element in place changes both, the comparison sees no change and the rotation is silently dropped — the replaced key stays in force"
+		refVals := map[ssa.Value]bool{}
+		for _, s := range storedTo(ref, f.Name()) {
+			refVals[s.Val] = true
+		}
+		for _, s := range storedTo(mut, f.Name()) {
+			cv, isCall := s.Val.(*ssa.Call)
+			if !isCall || refVals[s.Val] {
+				continue
+			}
+			_ = cv
+			if instrDominates(s, cb) {
+				ok = true
+			}
+		}
+		c.Check(ok, "R8.6", "Identity.Mutate:"+f.Name()+":own-copy", pos, "the callback works on its own copy of "+f.Name(), why)
+	}
+	// the version appended is built from the callback's copy
+	okNew := false
+	for _, cl := range CallsNamed(fn, "entities/identity.newVersion") {
+		for _, arg := range cl.Args() {
+			if base, _, isF := loadOfField(arg); isF && base == ssa.Value(mut) {
+				okNew = true
+			}
+		}
+	}
+	c.Check(okNew, "R8.6", "Identity.Mutate:new-version-from-mutated", pos, "the new version is built from the mutated copy", "the version appended by Mutate is not built from the mutator the callback changed")
 }
